@@ -46,6 +46,21 @@ def radii_table(kind, radius, freq, mask_index, power=0.75):
     return r
 
 
+def radius_tie(kind, radius, freq, mask_index, power=0.75, tol=1e-4):
+    """True if a variable radius of this table sits (numerically) on a rounding boundary - x.5, or the 0/1 clamp at 1.0: then
+    the integer radius depends on the floating-point precision used, and the definition does not pin it down."""
+    if kind == "fixed" or len(freq) == 0:
+        return False
+    rr = np.power(freq.astype(np.float64), power - 1)
+    rr = rr / np.sum(rr * freq)
+    rr = np.append(rr, rr.min())
+    if mask_index is not None:
+        rr[mask_index] = 0.0
+    res = rr * radius
+    frac = np.abs(res - np.floor(res) - 0.5)
+    return bool(np.any((frac < tol) & (res > 0)) or np.any(np.abs(res - 1.0) < tol))
+
+
 def kernel_weights(kind, contexts, mask_index, normalize, offset, power=0.9, deltas=None, delta=1.0):
     w = []
     for j, c in enumerate(contexts):
@@ -125,8 +140,13 @@ def l1_columns(M):
     return out
 
 
+THRESHOLD_TIES = []   # appended to when an entry sits (numerically) on the threshold: float precision decides such a cell
+
+
 def threshold(M, eps):
     out = M.copy()
+    if eps > 0 and np.any(np.abs(out - eps) < 1e-6):
+        THRESHOLD_TIES.append(1)
     out[out < eps] = 0
     return out
 
